@@ -21,6 +21,19 @@
 #include "spec_options.h"
 
 
+/* Frames. Contracts name the groups of ghost fields a function may touch, so that
+   a replaced call leaves everything else alone and an enforced body is checked
+   not to reach further. */
+#define G_FD g.open, g.lib, g.cloexec, g.nonblock, g.rd, g.wr, g.obj, g.next_pipe
+#define G_ERR g.err, g.faults, g.first_errno, g.last_fault, g.os_calls
+#define G_RD g.rd_calls, g.rd_fd, g.rd_buf, g.rd_n, g.rd_ret, g.rd_errno, g.may_block
+#define G_WR g.wr_calls, g.wr_fd, g.wr_buf, g.wr_n, g.wr_ret, g.wr_errno, g.may_block, g.in_fd, g.stream_pos
+/* what every contract that may fail a call promises about the error ghost */
+#define G_ERR_SANE (g.err >= 0 && g.err < 134 && g.first_errno >= 0 && g.first_errno < 134 && g.last_fault >= 0 && g.last_fault < 134 && g.faults >= OLD(g.faults) && g.faults <= 1000 && g.os_calls >= OLD(g.os_calls) && IMPLIES(OLD(g.faults) > 0, g.first_errno == OLD(g.first_errno)) && IMPLIES(g.faults == OLD(g.faults), g.first_errno == OLD(g.first_errno)))
+/* descriptors that were open keep the object behind them (index masked so that
+   the snapshot taken at entry is in bounds) */
+#define OBJ_KEPT(fd) (!FD_OK(fd) || (OLD(g.open) & BIT(fd)) == 0 || g.obj[(fd) & 31] == OLD(g.obj[(fd) & 31]))
+
 /* ------------------------------- options.c ------------------------------- */
 
 CONTRACT(parse_stop_actions)
@@ -39,6 +52,7 @@ int parse_options(reproc_options *options, const char *const *argv)
   ENS("C13+C10/parse_options.effective_stdin", IMPLIES((RV == 0 && OPT_TYPES_IN_RANGE(O0)), RD_T(options->redirect.in) == OPT_EFF_IN(O0)))
   ENS("C13+C10/parse_options.effective_stdout", IMPLIES((RV == 0 && OPT_TYPES_IN_RANGE(O0)), RD_T(options->redirect.out) == OPT_EFF_OUT(O0)))
   ENS("C13+C10/parse_options.effective_stderr", IMPLIES((RV == 0 && OPT_TYPES_IN_RANGE(O0)), RD_T(options->redirect.err) == OPT_EFF_ERR(O0)))
+  ENS("C13/parse_options.out_of_range_types_not_rewritten", IMPLIES(RV == 0, IMPLIES(!RD_IN_RANGE(O0.redirect.in), options->redirect.in.type == O0.redirect.in.type) && IMPLIES(!RD_IN_RANGE(O0.redirect.out), options->redirect.out.type == O0.redirect.out.type) && IMPLIES(!RD_IN_RANGE(O0.redirect.err), options->redirect.err.type == O0.redirect.err.type)))
   ENS("C13+C10/parse_options.stdin_operands_kept", IMPLIES(RV == 0, options->redirect.in.handle == O0.redirect.in.handle && options->redirect.in.file == O0.redirect.in.file && options->redirect.in.path == O0.redirect.in.path))
   ENS("C13+C10/parse_options.stdout_operands", IMPLIES(RV == 0, options->redirect.out.handle == O0.redirect.out.handle && options->redirect.out.file == (O0.redirect.file != NULL ? O0.redirect.file : O0.redirect.out.file) && options->redirect.out.path == (O0.redirect.path != NULL ? O0.redirect.path : O0.redirect.out.path)))
   ENS("C13+C10/parse_options.stderr_operands", IMPLIES(RV == 0, options->redirect.err.handle == O0.redirect.err.handle && options->redirect.err.file == (O0.redirect.file != NULL ? O0.redirect.file : O0.redirect.err.file) && options->redirect.err.path == (O0.redirect.path != NULL ? O0.redirect.path : O0.redirect.err.path)))
@@ -72,17 +86,18 @@ CONTRACT(handle_destroy)
 int handle_destroy(int handle)
   /* the caller may only hand over what the library opened and still holds */
   REQ("C05/handle_destroy.own_open_descriptor", handle == -1 || g.in_child || (IS_OPEN(handle) && IS_LIB(handle)))
-  ASSIGNS(g)
+  ASSIGNS(G_FD, G_ERR)
+  ENS("C14/handle_destroy.error_ghost_sane", G_ERR_SANE)
   ENS("C05/handle_destroy.returns_invalid", RV == -1)
   ENS("C05/handle_destroy.invalid_is_noop", IMPLIES(handle == -1, g.os_calls == OLD(g.os_calls) && FD_LEDGER_UNCHANGED))
   ENS("C05/handle_destroy.releases_exactly_that_descriptor", g.open == (OLD(g.open) & ~MASK_OF(handle)) && g.lib == (OLD(g.lib) & ~MASK_OF(handle)))
   ENS("C05/handle_destroy.others_keep_flags", FD_FRAME_EXCEPT(MASK_OF(handle)))
-  ENS("C14/handle_destroy.errno_free_interface", g.child_pid == OLD(g.child_pid) && g.child_reaped == OLD(g.child_reaped) && g.nsig == OLD(g.nsig))
   ;
 
 CONTRACT(handle_cloexec)
 int handle_cloexec(int handle, bool enable)
-  ASSIGNS(g)
+  ASSIGNS(g.cloexec, G_ERR)
+  ENS("C14/handle_cloexec.error_ghost_sane", G_ERR_SANE)
   ENS("C11/handle_cloexec.sets_flag", IMPLIES(RV == 0, IS_OPEN(handle) && ((g.cloexec & MASK_OF(handle)) != 0) == enable))
   ENS("C11/handle_cloexec.only_that_flag", g.open == OLD(g.open) && g.lib == OLD(g.lib) && g.nonblock == OLD(g.nonblock) && (g.cloexec & ~MASK_OF(handle)) == (OLD(g.cloexec) & ~MASK_OF(handle)))
   ENS("C04/handle_cloexec.reports_errno", (RV == 0 || RV == -g.err) && RV <= 0)
@@ -94,12 +109,12 @@ int handle_cloexec(int handle, bool enable)
 CONTRACT(pipe_destroy)
 int pipe_destroy(int pipe)
   REQ("C05/pipe_destroy.own_open_descriptor", pipe == -1 || g.in_child || (IS_OPEN(pipe) && IS_LIB(pipe)))
-  ASSIGNS(g)
+  ASSIGNS(G_FD, G_ERR)
+  ENS("C14/pipe_destroy.error_ghost_sane", G_ERR_SANE)
   ENS("C05/pipe_destroy.returns_invalid", RV == -1)
   ENS("C05/pipe_destroy.invalid_is_noop", IMPLIES(pipe == -1, g.os_calls == OLD(g.os_calls) && FD_LEDGER_UNCHANGED))
   ENS("C05/pipe_destroy.releases_exactly_that_descriptor", g.open == (OLD(g.open) & ~MASK_OF(pipe)) && g.lib == (OLD(g.lib) & ~MASK_OF(pipe)))
   ENS("C05/pipe_destroy.others_keep_flags", FD_FRAME_EXCEPT(MASK_OF(pipe)))
-  ENS("C14/pipe_destroy.nothing_else", g.child_pid == OLD(g.child_pid) && g.child_reaped == OLD(g.child_reaped) && g.child_live == OLD(g.child_live) && g.nsig == OLD(g.nsig) && g.reaps == OLD(g.reaps) && g.sigmask == OLD(g.sigmask) && g.now == OLD(g.now))
   ;
 
 #define PIPE_PAIR_FRESH(r, w)                                                  \
@@ -109,21 +124,22 @@ int pipe_destroy(int pipe)
 CONTRACT(pipe_init)
 int pipe_init(int *read, int *write)
   REQ_(read != NULL && write != NULL && read != write)
-  ASSIGNS(*read, *write, g)
+  ASSIGNS(*read, *write, G_FD, G_ERR)
+  ENS("C14/pipe_init.error_ghost_sane", G_ERR_SANE)
   ENS("C05/pipe_init.success_two_fresh_library_descriptors", IMPLIES(RV == 0, PIPE_PAIR_FRESH(*read, *write)))
   ENS("C11/pipe_init.both_ends_close_on_exec", IMPLIES(RV == 0, (g.cloexec & (MASK_OF(*read) | MASK_OF(*write))) == (MASK_OF(*read) | MASK_OF(*write))))
   ENS("C17/pipe_init.both_ends_blocking", IMPLIES(RV == 0, (g.nonblock & (MASK_OF(*read) | MASK_OF(*write))) == 0))
   ENS("C10/pipe_init.ends_of_one_pipe", IMPLIES(RV == 0, g.obj[*read] >= OBJ_PIPE_BASE && (g.obj[*read] & 1) == 0 && g.obj[*write] == g.obj[*read] + 1 && (g.rd & BIT(*read)) != 0 && (g.wr & BIT(*write)) != 0))
   ENS("C05/pipe_init.failure_leaves_no_descriptor", IMPLIES(RV != 0, FD_LEDGER_UNCHANGED && *read == OLD(*read) && *write == OLD(*write)))
   ENS("C05/pipe_init.other_descriptors_untouched", FD_FRAME_EXCEPT(RV == 0 ? (MASK_OF(*read) | MASK_OF(*write)) : 0u))
-  ENS("C04/pipe_init.zero_or_negative_errno", RV <= 0 && IMPLIES(RV < 0, g.faults > OLD(g.faults)))
+  ENS("C04/pipe_init.zero_or_negative_errno", RV <= 0 && IMPLIES(RV < 0, g.faults > OLD(g.faults)) && IMPLIES(RV == 0, g.faults == OLD(g.faults)))
   ENS("C04/pipe_init.first_failure_reported", IMPLIES(RV < 0 && OLD(g.faults) == 0, RV == -g.first_errno))
-  ENS("C14/pipe_init.nothing_else", g.child_pid == OLD(g.child_pid) && g.child_reaped == OLD(g.child_reaped) && g.child_live == OLD(g.child_live) && g.nsig == OLD(g.nsig) && g.reaps == OLD(g.reaps) && g.sigmask == OLD(g.sigmask) && g.now == OLD(g.now))
   ;
 
 CONTRACT(pipe_nonblocking)
 int pipe_nonblocking(int pipe, bool enable)
-  ASSIGNS(g)
+  ASSIGNS(g.nonblock, G_ERR)
+  ENS("C14/pipe_nonblocking.error_ghost_sane", G_ERR_SANE)
   ENS("C17/pipe_nonblocking.sets_flag", IMPLIES(RV == 0, IS_OPEN(pipe) && ((g.nonblock & MASK_OF(pipe)) != 0) == enable))
   ENS("C17/pipe_nonblocking.only_that_flag", g.open == OLD(g.open) && g.lib == OLD(g.lib) && g.cloexec == OLD(g.cloexec) && (g.nonblock & ~MASK_OF(pipe)) == (OLD(g.nonblock) & ~MASK_OF(pipe)))
   ENS("C04/pipe_nonblocking.zero_or_negative_errno", RV <= 0 && IMPLIES(RV < 0, RV == -g.err))
@@ -138,7 +154,8 @@ CONTRACT(pipe_read)
 int pipe_read(int pipe, uint8_t *buffer, size_t size)
   REQ("C02/pipe_read.descriptor_open", IS_OPEN(pipe))
   REQ_(buffer != NULL)
-  ASSIGNS(g, __CPROVER_object_whole(buffer))
+  ASSIGNS(G_ERR, G_RD, __CPROVER_object_whole(buffer))
+  ENS("C14/pipe_read.error_ghost_sane", G_ERR_SANE)
   ENS("C02/pipe_read.exactly_one_read_as_asked", g.rd_calls == OLD(g.rd_calls) + 1 && g.rd_fd == pipe && g.rd_buf == (const void *) buffer && g.rd_n == size && g.wr_calls == OLD(g.wr_calls))
   ENS("C02/pipe_read.count_is_kernels", IMPLIES(g.rd_ret > 0, RV == g.rd_ret))
   ENS("C02/pipe_read.eof_is_epipe", IMPLIES(g.rd_ret == 0, RV == -EPIPE))
@@ -146,21 +163,20 @@ int pipe_read(int pipe, uint8_t *buffer, size_t size)
   ENS("C17/pipe_read.ewouldblock", IMPLIES(g.rd_ret < 0 && g.rd_errno == EAGAIN, RV == REPROC_EWOULDBLOCK))
   ENS("C17/pipe_read.nonblocking_never_sleeps", IMPLIES((OLD(g.nonblock) & MASK_OF(pipe)) != 0, g.may_block == OLD(g.may_block)))
   ENS("C05/pipe_read.ledger_unchanged", FD_LEDGER_UNCHANGED && g.nonblock == OLD(g.nonblock) && g.cloexec == OLD(g.cloexec))
-  ENS("C14/pipe_read.nothing_else", g.child_pid == OLD(g.child_pid) && g.child_reaped == OLD(g.child_reaped) && g.child_live == OLD(g.child_live) && g.nsig == OLD(g.nsig) && g.reaps == OLD(g.reaps) && g.poll_calls == OLD(g.poll_calls))
   ;
 
 CONTRACT(pipe_write)
 int pipe_write(int pipe, const uint8_t *buffer, size_t size)
   REQ("C02/pipe_write.descriptor_open", IS_OPEN(pipe))
   REQ_(buffer != NULL)
-  ASSIGNS(g)
+  ASSIGNS(G_ERR, G_WR)
+  ENS("C14/pipe_write.error_ghost_sane", G_ERR_SANE)
   ENS("C02/pipe_write.exactly_one_write_as_asked", g.wr_calls == OLD(g.wr_calls) + 1 && g.wr_fd == pipe && g.wr_buf == (const void *) buffer && g.wr_n == size && g.rd_calls == OLD(g.rd_calls))
   ENS("C02/pipe_write.count_is_kernels", IMPLIES(g.wr_ret >= 0, RV == g.wr_ret))
   ENS("C02/pipe_write.error_is_errno", IMPLIES(g.wr_ret < 0, RV == -g.wr_errno && RV < 0))
   ENS("C17/pipe_write.ewouldblock", IMPLIES(g.wr_ret < 0 && g.wr_errno == EAGAIN, RV == REPROC_EWOULDBLOCK))
   ENS("C17/pipe_write.nonblocking_never_sleeps", IMPLIES((OLD(g.nonblock) & MASK_OF(pipe)) != 0, g.may_block == OLD(g.may_block)))
   ENS("C05/pipe_write.ledger_unchanged", FD_LEDGER_UNCHANGED && g.nonblock == OLD(g.nonblock) && g.cloexec == OLD(g.cloexec))
-  ENS("C14/pipe_write.nothing_else", g.child_pid == OLD(g.child_pid) && g.child_reaped == OLD(g.child_reaped) && g.child_live == OLD(g.child_live) && g.nsig == OLD(g.nsig) && g.reaps == OLD(g.reaps) && g.poll_calls == OLD(g.poll_calls))
   ;
 
 /* -------------------------- redirect.c / redirect.posix.c ----------------- */
@@ -180,7 +196,8 @@ int redirect_init(pipe_type *parent, handle_type *child, REPROC_STREAM stream, r
   REQ_(parent != NULL && child != NULL && (void *) parent != (void *) child)
   REQ("C10/redirect_init.stream_valid", STREAM_OK(stream))
   REQ("C10/redirect_init.operand_present", IMPLIES(RTYPE == RT_PATH, redirect.path != NULL) && IMPLIES(RTYPE == RT_FILE, redirect.file != NULL))
-  ASSIGNS(*parent, *child, g)
+  ASSIGNS(*parent, *child, G_FD, G_ERR)
+  ENS("C14/redirect_init.error_ghost_sane", G_ERR_SANE)
   ENS("C10/redirect_init.pipe_parent_holds_other_end", IMPLIES(RV == 0 && RTYPE == RT_PIPE, FD_NEW(*parent) && FD_NEW(*child) && *parent != *child && ONLY_NEW2(*parent, *child) && g.obj[*child] >= OBJ_PIPE_BASE && (stream == REPROC_STREAM_IN ? ((g.obj[*child] & 1) == 0 && g.obj[*parent] == g.obj[*child] + 1) : ((g.obj[*parent] & 1) == 0 && g.obj[*child] == g.obj[*parent] + 1)) && CHILD_DIR_OK(stream, *child)))
   ENS("C17/redirect_init.pipe_parent_end_mode_child_end_blocking", IMPLIES(RV == 0 && RTYPE == RT_PIPE, ((g.nonblock & MASK_OF(*parent)) != 0) == nonblocking && (g.nonblock & MASK_OF(*child)) == 0))
   ENS("C11/redirect_init.created_descriptors_close_on_exec", IMPLIES(RV == 0 && (RTYPE == RT_PIPE || OPENS_FILE), (g.cloexec & MASK_OF(*child)) != 0 && IMPLIES(RTYPE == RT_PIPE, (g.cloexec & MASK_OF(*parent)) != 0)))
@@ -189,14 +206,14 @@ int redirect_init(pipe_type *parent, handle_type *child, REPROC_STREAM stream, r
   ENS("C10/redirect_init.discard_is_null_device", IMPLIES(RV == 0 && RTYPE == RT_DISCARD, FD_NEW(*child) && ONLY_NEW1(*child) && g.obj[*child] == OBJ_DEVNULL && CHILD_DIR_OK(stream, *child)))
   ENS("C10/redirect_init.path_opened_in_right_direction", IMPLIES(RV == 0 && RTYPE == RT_PATH, FD_NEW(*child) && ONLY_NEW1(*child) && CHILD_DIR_OK(stream, *child) && IMPLIES(redirect.path == gc.cfg_path[0], g.obj[*child] == OBJ_PATH_BASE)))
   ENS("C10/redirect_init.handle_is_users", IMPLIES(RV == 0 && RTYPE == RT_HANDLE, *child == redirect.handle && FD_LEDGER_UNCHANGED))
-  ENS("C10/redirect_init.file_is_users", IMPLIES(RV == 0 && RTYPE == RT_FILE, *child == gc.cfg_file_fd && FD_LEDGER_UNCHANGED))
+  ENS("C10/redirect_init.file_is_users", IMPLIES(RV == 0 && RTYPE == RT_FILE, gc.cfg_file_fd >= 0 && *child == gc.cfg_file_fd && FD_LEDGER_UNCHANGED))
   ENS("C10/redirect_init.stdout_shares_childs_stdout", IMPLIES(RV == 0 && RTYPE == RT_STDOUT, *child == out && FD_LEDGER_UNCHANGED))
   ENS("C10/redirect_init.parent_end_only_for_pipes", IMPLIES(RV == 0 && RTYPE != RT_PIPE, *parent == -1))
   ENS("C05/redirect_init.failure_leaves_no_descriptor", IMPLIES(RV != 0, FD_LEDGER_UNCHANGED && *parent == OLD(*parent) && *child == OLD(*child)))
   ENS("C05/redirect_init.other_descriptors_untouched", FD_FRAME_EXCEPT(RV == 0 ? ((RTYPE == RT_PIPE ? MASK_OF(*parent) : 0u) | ((RTYPE == RT_PIPE || OPENS_FILE) ? MASK_OF(*child) : 0u)) : 0u))
-  ENS("C04/redirect_init.zero_or_negative_error", RV <= 0 && IMPLIES(RV < 0 && OLD(g.faults) == 0 && g.faults > 0, RV == -g.first_errno) && IMPLIES(RV < 0 && g.faults == OLD(g.faults), RV == -EINVAL || (RTYPE == RT_FILE && RV == -EBADF)))
+  ENS("C04/redirect_init.success_has_no_failed_call", IMPLIES(RV == 0, g.faults == OLD(g.faults)))
+  ENS("C04/redirect_init.zero_or_negative_error", RV <= 0 && IMPLIES(RV < 0 && OLD(g.faults) == 0 && g.faults > 0, RV == -g.first_errno) && IMPLIES(RV < 0 && g.faults == OLD(g.faults), RV == -EINVAL && (RTYPE == RT_DEFAULT || RTYPE > 7u)))
   ENS("C13/redirect_init.unknown_type_is_einval", IMPLIES(RTYPE == RT_DEFAULT || RTYPE > 7u, RV == -EINVAL && g.os_calls == OLD(g.os_calls)))
-  ENS("C14/redirect_init.nothing_else", g.child_pid == OLD(g.child_pid) && g.child_reaped == OLD(g.child_reaped) && g.child_live == OLD(g.child_live) && g.nsig == OLD(g.nsig) && g.reaps == OLD(g.reaps) && g.sigmask == OLD(g.sigmask) && g.now == OLD(g.now) && g.may_block == OLD(g.may_block))
   ;
 #undef RTYPE
 
@@ -204,13 +221,14 @@ int redirect_init(pipe_type *parent, handle_type *child, REPROC_STREAM stream, r
 
 CONTRACT(redirect_destroy)
 handle_type redirect_destroy(handle_type child, REPROC_REDIRECT type)
-  REQ("C05/redirect_destroy.closes_only_library_descriptors", IMPLIES(child != -1 && DESTROY_CLOSES(type), IS_OPEN(child) && IS_LIB(child)))
-  ASSIGNS(g)
+  REQ("C05/redirect_destroy.closes_only_library_descriptors", IMPLIES(child != -1 && DESTROY_CLOSES(type), g.in_child || (IS_OPEN(child) && IS_LIB(child))))
+  ASSIGNS(G_FD, G_ERR)
+  ENS("C14/redirect_destroy.error_ghost_sane", G_ERR_SANE)
   ENS("C05/redirect_destroy.returns_invalid", RV == -1)
+  ENS("C05/redirect_destroy.invalid_is_noop", IMPLIES(child == -1, g.os_calls == OLD(g.os_calls) && g.faults == OLD(g.faults) && g.err == OLD(g.err) && FD_LEDGER_UNCHANGED))
   ENS("C05/redirect_destroy.closes_what_the_library_opened", IMPLIES(DESTROY_CLOSES(type), g.open == (OLD(g.open) & ~MASK_OF(child)) && g.lib == (OLD(g.lib) & ~MASK_OF(child))))
   ENS("C05/redirect_destroy.never_closes_user_or_parent_streams", IMPLIES(!DESTROY_CLOSES(type), FD_LEDGER_UNCHANGED && g.os_calls == OLD(g.os_calls)))
   ENS("C05/redirect_destroy.others_keep_flags", FD_FRAME_EXCEPT(DESTROY_CLOSES(type) ? MASK_OF(child) : 0u))
-  ENS("C14/redirect_destroy.nothing_else", g.child_pid == OLD(g.child_pid) && g.child_reaped == OLD(g.child_reaped) && g.child_live == OLD(g.child_live) && g.nsig == OLD(g.nsig) && g.reaps == OLD(g.reaps) && g.sigmask == OLD(g.sigmask) && g.now == OLD(g.now))
   ;
 
 /* ------------------------------ process.posix.c --------------------------- */
@@ -218,7 +236,8 @@ handle_type redirect_destroy(handle_type child, REPROC_REDIRECT type)
 CONTRACT(process_wait)
 int process_wait(pid_t process)
   REQ("C06/process_wait.own_unreaped_child", process > 0 && process == g.child_pid && g.child_live && !g.child_reaped)
-  ASSIGNS(g)
+  ASSIGNS(G_ERR, g.wait_calls, g.child_reaped, g.child_live, g.reaps, g.may_block)
+  ENS("C14/process_wait.error_ghost_sane", G_ERR_SANE)
   ENS("C01/process_wait.one_blocking_waitpid", g.wait_calls == OLD(g.wait_calls) + 1)
   ENS("C01/process_wait.status_means_reaped", IMPLIES(RV >= 0, g.child_reaped && !g.child_live && g.reaps == OLD(g.reaps) + 1))
   ENS("C01/process_wait.status_is_exact", IMPLIES(RV >= 0, RV == WST_DECODE(g.child_wstatus)))
@@ -230,7 +249,8 @@ int process_wait(pid_t process)
 CONTRACT(process_terminate)
 int process_terminate(pid_t process)
   REQ("C06/process_terminate.own_unreaped_child", process > 0 && process == g.child_pid && g.child_live && !g.child_reaped)
-  ASSIGNS(g)
+  ASSIGNS(G_ERR, g.kill_calls, g.sig_log, g.nsig, g.plan_pos)
+  ENS("C14/process_terminate.error_ghost_sane", G_ERR_SANE)
   ENS("C07/process_terminate.one_kill", g.kill_calls == OLD(g.kill_calls) + 1 && g.wait_calls == OLD(g.wait_calls))
   ENS("C07/process_terminate.sends_sigterm_once", IMPLIES(RV == 0, g.nsig == OLD(g.nsig) + 1 && IMPLIES(OLD(g.nsig) < 4, g.sig_log[OLD(g.nsig)] == SIGTERM)))
   ENS("C07/process_terminate.failure_sends_nothing", IMPLIES(RV != 0, RV == -g.err && RV < 0 && g.nsig == OLD(g.nsig)))
@@ -240,7 +260,8 @@ int process_terminate(pid_t process)
 CONTRACT(process_kill)
 int process_kill(pid_t process)
   REQ("C06/process_kill.own_unreaped_child", process > 0 && process == g.child_pid && g.child_live && !g.child_reaped)
-  ASSIGNS(g)
+  ASSIGNS(G_ERR, g.kill_calls, g.sig_log, g.nsig, g.plan_pos)
+  ENS("C14/process_kill.error_ghost_sane", G_ERR_SANE)
   ENS("C07/process_kill.one_kill", g.kill_calls == OLD(g.kill_calls) + 1 && g.wait_calls == OLD(g.wait_calls))
   ENS("C07/process_kill.sends_sigkill_once", IMPLIES(RV == 0, g.nsig == OLD(g.nsig) + 1 && IMPLIES(OLD(g.nsig) < 4, g.sig_log[OLD(g.nsig)] == SIGKILL)))
   ENS("C07/process_kill.failure_sends_nothing", IMPLIES(RV != 0, RV == -g.err && RV < 0 && g.nsig == OLD(g.nsig)))
@@ -258,7 +279,7 @@ int process_kill(pid_t process)
    side: everything the started program is promised is asserted by the execvp
    contract of the OS layer (labels C03/exec.*, C10/exec.*, C11/exec.*,
    C12/exec.*); failures are reported through the error pipe (C04/child.*). */
-#define GHOST_SANE (g.err >= 0 && g.err < 134 && g.first_errno >= 0 && g.first_errno < 134 && g.faults >= 0 && g.faults <= 1000 && g.child_fate_errno >= 0 && g.child_fate_errno < 134 && g.nsig >= 0 && g.kill_calls >= 0)
+#define GHOST_SANE (g.err >= 0 && g.err < 134 && g.first_errno >= 0 && g.first_errno < 134 && g.last_fault >= 0 && g.last_fault < 134 && g.faults >= 0 && g.faults <= 1000 && g.child_fate_errno >= 0 && g.child_fate_errno < 134 && g.nsig >= 0 && g.kill_calls >= 0)
 
 CONTRACT(process_start)
 int process_start(pid_t *process, const char *const *argv, struct process_options options)
@@ -267,6 +288,10 @@ int process_start(pid_t *process, const char *const *argv, struct process_option
   REQ("C13/process_start.argv_wellformed", argv == NULL || argv[0] != NULL)
   REQ("C10/process_start.child_handles_are_open", IS_OPEN(options.handle.in) && IS_OPEN(options.handle.out) && IS_OPEN(options.handle.err) && IS_OPEN(options.handle.exit))
   ASSIGNS(*process, g, environ)
+  ENS("C14/process_start.error_ghost_sane", G_ERR_SANE && g.child_fate_errno >= 0 && g.child_fate_errno < 134 && g.now == OLD(g.now) && g.in_fd == OLD(g.in_fd) && g.stream_pos == OLD(g.stream_pos))
+  ENS("C04/process_start.side_of_fork", IMPLIES(g.in_child, gc.cfg_child_side) && IMPLIES(RV > 0, !gc.cfg_child_side))
+  ENS("C11/process_start.fork_mode_child_descriptors", IMPLIES(g.in_child, (g.open & ~7u & ~PS_HANDLES_MASK) == 0 && (g.open & PS_HANDLES_MASK & ~7u) == (OLD(g.open) & PS_HANDLES_MASK & ~7u)))
+  ENS("C04/process_start.success_has_no_failed_call", IMPLIES(RV >= 0, g.faults == OLD(g.faults)))
   ENS("C04/process_start.parent_gets_one_or_error", IMPLIES(PS_PARENT, RV == 1 || RV < 0))
   ENS("C04+C06/process_start.success_is_live_child_that_executed", IMPLIES(PS_PARENT && RV == 1, *process == g.child_pid && *process > 0 && g.child_live && !g.child_reaped && g.reaps == OLD(g.reaps) && g.child_fate == FATE_EXECED))
   ENS("C04+C05+C06/process_start.failure_leaves_no_child_and_no_pid", IMPLIES(PS_PARENT && RV < 0, *process == -1 && !g.child_live && (g.child_pid == 0 || g.child_reaped)))
